@@ -77,12 +77,13 @@ type c20env struct {
 	label    string
 	ds       datastore.Datastore
 	insts    []*c20ks
-	keys     [][]byte        // generation index-1 -> raw private key bytes
-	keyIdx   map[string]int  // raw private key bytes -> generation index
-	pubHex   map[string]int  // hex(compressed public key) -> generation index
-	pubUnc   map[string]int  // uncompressed public key bytes -> generation index
-	stored   map[string]int  // id -> generation index of the key last stored under it
-	recreate map[string]bool // ids raw-created more than once: the property's premise fails
+	keys     [][]byte          // generation index-1 -> raw private key bytes
+	keyIdx   map[string]int    // raw private key bytes -> generation index
+	pubHex   map[string]int    // hex(compressed public key) -> generation index
+	pubUnc   map[string]int    // uncompressed public key bytes -> generation index
+	stored   map[string]int    // id -> generation index of the key last stored under it
+	recreate map[string]bool   // ids raw-created more than once: the property's premise fails
+	slots    map[string]string // datastore key -> the id spelling used for it
 	idents   map[string]*idp.Identity
 	identOf  map[string][2]int // user id -> (a, b)
 	identIn  map[string]int    // user id -> instance its Provider is bound to
@@ -120,7 +121,7 @@ func c20newEnv(run *c20run, label string, once bool) *c20env {
 	api, _ := newAPI()
 	return &c20env{run: run, label: label, ds: &c20FlakyDS{Datastore: dssync.MutexWrap(datastore.NewMapDatastore())},
 		keyIdx: map[string]int{}, pubHex: map[string]int{}, pubUnc: map[string]int{}, stored: map[string]int{},
-		recreate: map[string]bool{}, idents: map[string]*idp.Identity{}, identOf: map[string][2]int{},
+		slots: map[string]string{}, recreate: map[string]bool{}, idents: map[string]*idp.Identity{}, identOf: map[string][2]int{},
 		identIn: map[string]int{}, once: once, api: api}
 }
 
@@ -130,8 +131,7 @@ func (e *c20env) idNum(id string) int {
 		return c20HexBase + k
 	}
 	var n int
-	var a, b int
-	if _, err := fmt.Sscanf(id, "org%d/alice%d", &a, &b); err == nil && fmt.Sprintf("org%d/alice%d", a, b) == id && a >= 0 && a < 3 && b >= 0 && b < 300 {
+	if a, b, ok := c20ParseNS(id); ok && b < 300 {
 		return c20NSBase + b*3 + a
 	}
 	if _, err := fmt.Sscanf(id, "id-%d", &n); err != nil || n <= 0 || n >= c20HexBase || fmt.Sprintf("id-%d", n) != id {
@@ -144,7 +144,24 @@ func (e *c20env) idNum(id string) int {
 // keys) are written "id-<c20NSBase + 3*b + a>" in operation lists
 const c20NSBase = 500000
 
-func c20NSID(n int) string { return fmt.Sprintf("org%d/alice%d", (n-c20NSBase)%3, (n-c20NSBase)/3) }
+// The three namespaces are written three ways: as a clean relative path, with a leading slash, and
+// with a doubled separator.  The datastore key of an id is its cleaned path, so the three name
+// three different slots (no history uses two spellings of one path; see c20aliasProbe for those).
+var c20NSFormats = []string{"org0/alice%d", "/org1/alice%d", "org2//alice%d"}
+
+func c20NSID(n int) string {
+	return fmt.Sprintf(c20NSFormats[(n-c20NSBase)%3], (n-c20NSBase)/3)
+}
+
+func c20ParseNS(id string) (a, b int, ok bool) {
+	for a, f := range c20NSFormats {
+		var b int
+		if _, err := fmt.Sscanf(id, f, &b); err == nil && b >= 0 && fmt.Sprintf(f, b) == id {
+			return a, b, true
+		}
+	}
+	return 0, 0, false
+}
 
 func (e *c20env) registerKey(priv crypto.PrivKey) int {
 	raw, err := priv.Raw()
@@ -229,9 +246,12 @@ func (k *c20ks) Verify(sig []byte, pub crypto.PubKey, data []byte) error {
 
 func (k *c20ks) CreateKey(ctx context.Context, id string) (crypto.PrivKey, error) {
 	e := k.env
-	if datastore.NewKey(id).String() != "/"+id {
-		panic("c20: id is not a datastore key in normal form: " + id)
+	// two spellings of one datastore key are outside the property (see c20aliasProbe): the
+	// generator never uses both
+	if prev, ok := e.slots[datastore.NewKey(id).String()]; ok && prev != id {
+		panic("c20: ids " + prev + " and " + id + " name one datastore key")
 	}
+	e.slots[datastore.NewKey(id).String()] = id
 	priv, err := k.real.CreateKey(ctx, id)
 	e.run.evals++
 	e.run.classes["create/"+e.status(k.inst, id)] = struct{}{}
@@ -242,6 +262,10 @@ func (k *c20ks) CreateKey(ctx context.Context, id string) (crypto.PrivKey, error
 		return priv, err
 	}
 	idx := e.registerKey(priv)
+	if prevKey, was := e.stored[id]; was && e.inner && !e.recreate[id] {
+		e.run.fail(e, "identity-keeps-existing-key", "C20:identity-overwrites-key",
+			fmt.Sprintf("CreateIdentity created key #%d for %q on keystore %d although key #%d is stored under that id: the stored key was replaced", idx, id, k.inst, prevKey))
+	}
 	if _, was := e.stored[id]; was && !e.inner {
 		// a second raw create issued by the generator: the property's premise fails for this id
 		// (a re-creation made by the library itself inside CreateIdentity is NOT excused)
@@ -266,6 +290,8 @@ func (k *c20ks) GetKey(ctx context.Context, id string) (crypto.PrivKey, error) {
 	}
 	if !e.recreate[id] {
 		switch {
+		case created && err != nil && ctx.Err() != nil:
+			// the caller's context is done: an error is an answer (the key must survive it, see CreateKey)
 		case created && (err != nil || priv == nil):
 			e.run.fail(e, "getkey-returns-created-key", "C20:getkey-error-for-created",
 				fmt.Sprintf("GetKey(%q) on keystore %d failed (%v) although the key was created (%s)", id, k.inst, err, e.status(k.inst, id)))
@@ -343,8 +369,14 @@ func c20sameIdentity(a, b *idp.Identity) bool {
 		bytes.Equal(a.Signatures.ID, b.Signatures.ID) && bytes.Equal(a.Signatures.PublicKey, b.Signatures.PublicKey)
 }
 
-func (e *c20env) createIdentity(inst int, uid string) {
+func (e *c20env) createIdentity(inst int, uid string, cancelled bool) {
 	ctx := context.Background()
+	if cancelled {
+		// a caller that has already given up: whatever the call answers, the keys stay what they are
+		var cancel context.CancelFunc
+		ctx, cancel = context.WithCancel(ctx)
+		cancel()
+	}
 	r := e.run
 	_, hadUID := e.stored[uid]
 	uidCached := e.shadowHas(inst, uid)
@@ -362,7 +394,9 @@ func (e *c20env) createIdentity(inst int, uid string) {
 	}
 	r.classes[cls] = struct{}{}
 	if err != nil || idn == nil || idn.Signatures == nil {
-		r.fail(e, "create-identity-succeeds", "C20:identity-error", fmt.Sprintf("CreateIdentity(%q) on keystore %d: %v", uid, inst, err))
+		if !cancelled {
+			r.fail(e, "create-identity-succeeds", "C20:identity-error", fmt.Sprintf("CreateIdentity(%q) on keystore %d: %v", uid, inst, err))
+		}
 		e.items = append(e.items, fmt.Sprintf("HIdent %d %d 0 0 0 0", inst, e.idNum(uid)))
 		return
 	}
@@ -568,8 +602,7 @@ func (e *c20env) symbolic(id string) string {
 	if k, ok := e.pubHex[id]; ok {
 		return fmt.Sprintf("pub-%d", k)
 	}
-	var a, b int
-	if _, err := fmt.Sscanf(id, "org%d/alice%d", &a, &b); err == nil && fmt.Sprintf("org%d/alice%d", a, b) == id {
+	if _, _, ok := c20ParseNS(id); ok {
 		return fmt.Sprintf("id-%d", e.idNum(id))
 	}
 	return id
@@ -594,7 +627,9 @@ func (e *c20env) exec(o c20op, rng *rand.Rand) {
 	case "has":
 		e.insts[o.Inst].HasKey(ctx, o.ID)
 	case "ident":
-		e.createIdentity(o.Inst, o.ID)
+		e.createIdentity(o.Inst, o.ID, false)
+	case "identc":
+		e.createIdentity(o.Inst, o.ID, true)
 	case "sign":
 		if e.idents[o.ID] != nil {
 			e.signWith(o.Inst, o.ID, rng)
@@ -743,7 +778,12 @@ func c20generate(e *c20env, p c20params, rng *rand.Rand) {
 		case x < 72 && len(e.insts) < p.maxInst:
 			do(c20op{Op: "new"}) // restart / another keystore over the same datastore
 		case x < 84:
-			do(c20op{Op: "ident", Inst: inst(), ID: uids[rng.Intn(len(uids))]})
+			u := uids[rng.Intn(len(uids))]
+			if x >= 82 && e.idents[u] != nil {
+				do(c20op{Op: "identc", Inst: inst(), ID: u}) // for an existing identity, by a caller whose context is done
+				do(c20op{Op: "get", Inst: inst(), ID: u})
+			}
+			do(c20op{Op: "ident", Inst: inst(), ID: u})
 		case x < 92:
 			u := uids[rng.Intn(len(uids))]
 			if e.idents[u] != nil {
